@@ -55,7 +55,7 @@ type irnState struct {
 	// contract methods other than newEpoch invoked as notary requests since the last op
 	otherInvokes int
 	histFails    map[string]int
-	hist      *irnHist // the history state of the running sequence (eng_irn_hist.go)
+	hist         *irnHist // the history state of the running sequence (eng_irn_hist.go)
 }
 
 func (s *irnState) IsAlphabet() bool             { return s.alpha }
